@@ -6,7 +6,7 @@
 using namespace vf;
 
 struct Segment { std::string bytes; bool flushAfter; };
-struct Stream { World w; std::vector<Segment> segs; bool tight; int slack; size_t replaced = 0; bool decoy = false; };
+struct Stream { World w; std::vector<Segment> segs; bool tight; int slack; size_t replaced = 0; bool decoy = false; bool preOverrun = false; /* before the stream: some clean ';'-terminated units left pending, then one call that overruns the buffer - the same two calls in every run */ };
 
 struct Obs { std::vector<std::string> events; std::string out; int flushes = 0; std::vector<std::string> queue; std::string pending, regs; std::vector<size_t> pendingProfile; std::string invariant; bool overrun = false; };
 
@@ -15,6 +15,15 @@ static Obs runChunked(const Stream &st, const std::vector<std::vector<size_t>> &
     InstCfg k8 = worldCfg(st.w, bufLen, 64); k8.decoy = st.decoy;      // a second instrument is fed every chunk first, then a lone CR (fixture.hpp)
     Inst I(k8);
     Obs o;
+    if (st.preOverrun && !st.w.table.empty()) {
+        std::string h = "*CLS", pre;                 // lexically clean units; they are never executed (no terminator before the overrun)
+        while (pre.size() + h.size() + 1 < bufLen / 2) pre += h + ";";
+        if (pre.empty()) pre = "A;";
+        if (pre.size() < bufLen) I.input(pre);
+        I.input(std::string(bufLen + 3, 'x'));
+        I.trace.clear(); I.out.clear(); I.flushes = 0; I.errors.clear(); I.drainErrors();
+        if (I.ctx.buffer.position != 0) o.invariant = "the input buffer is not empty after an overrun";
+    }
     for (size_t si = 0; si < st.segs.size(); si++) {
         size_t pos = 0;
         for (size_t len : chunks[si]) {
@@ -60,6 +69,7 @@ static Stream decode(Src &s) {
     if (knownActive("C08-F1")) for (auto &sg : st.segs) st.replaced += neutraliseQuotedTerminators(sg.bytes);
     st.tight = s.coin(); st.slack = (int) s.range(0, 3);
     st.decoy = s.prob(1, 8);
+    st.preOverrun = s.prob(1, 6);
     return st;
 }
 static std::string describe(const Stream &st) {
